@@ -13,7 +13,8 @@ import shutil
 
 VERIF = os.path.dirname(os.path.dirname(os.path.dirname(os.path.abspath(__file__))))
 REPO = os.environ.get("VERIF_REPO", "/repo")
-HARNESS = os.path.join(VERIF, "harness")
+HARNESS_SRC = os.path.join(VERIF, "harness")
+HARNESS = HARNESS_SRC
 STUBS = os.path.join(VERIF, "stubs")
 
 
@@ -22,14 +23,17 @@ class OverlayError(Exception):
 
 
 # real source file (relative to repo) -> harness module appended to it
+# module key -> (real source file, harness file, name of the appended child module)
 MODULES = {
-    "src/libpatch/patch/mod.rs": "patch_h.rs",
-    "src/libpatch/patch/unified/parser.rs": "parser_h.rs",
-    "src/libpatch/patch/unified/writer.rs": "writer_h.rs",
-    "src/libpatch/util/lines_with_endings.rs": "lines_h.rs",
-    "src/rapidquilt/apply/parallel.rs": "parallel_h.rs",
-    "src/rapidquilt/apply/common.rs": "common_h.rs",
+    "patch": ("src/libpatch/patch/mod.rs", "patch_h.rs", "verif_h"),
+    "patchpriv": ("src/libpatch/patch/mod.rs", "patch_priv_h.rs", "verif_hp"),
+    "parser": ("src/libpatch/patch/unified/parser.rs", "parser_h.rs", "verif_h"),
+    "writer": ("src/libpatch/patch/unified/writer.rs", "writer_h.rs", "verif_h"),
+    "lines": ("src/libpatch/util/lines_with_endings.rs", "lines_h.rs", "verif_h"),
+    "parallel": ("src/rapidquilt/apply/parallel.rs", "parallel_h.rs", "verif_h"),
+    "common": ("src/rapidquilt/apply/common.rs", "common_h.rs", "verif_h"),
 }
+REQUIRES = {"patchpriv": ["patch"], "writer": ["parser"]}
 
 
 def _rewrite(path, pattern, repl, what):
@@ -73,8 +77,13 @@ def make_overlay(dst, modules=None, containers=True, hashmap=True, real_memchr=F
         f.write(toml)
 
     # ---- harness modules (appended: original line numbers stay)
-    mods = MODULES if modules is None else modules
-    for rel, h in mods.items():
+    keys = list(MODULES) if modules is None else list(modules)
+    for k in list(keys):
+        for r in REQUIRES.get(k, []):
+            if r not in keys:
+                keys.append(r)
+    for k in keys:
+        rel, h, modname = MODULES[k]
         p = os.path.join(dst, rel)
         if not os.path.exists(p):
             raise OverlayError("source file missing: %s" % rel)
@@ -82,7 +91,7 @@ def make_overlay(dst, modules=None, containers=True, hashmap=True, real_memchr=F
         if not os.path.exists(hp):
             continue
         with open(p, "a") as f:
-            f.write('\n#[cfg(kani)] #[path = "%s"] mod verif_h;\n' % hp)
+            f.write('\n#[cfg(kani)] #[path = "%s"] pub(crate) mod %s;\n' % (hp, modname))
 
     # ---- container stand-ins behind the overlay-only feature
     lib = os.path.join(dst, "src/libpatch/lib.rs")
@@ -99,7 +108,7 @@ def make_overlay(dst, modules=None, containers=True, hashmap=True, real_memchr=F
                  r"^use std::fs::Permissions;$",
                  'use std::fs::Permissions; #[cfg(feature = "verif_containers")] use crate::verif_vec::VVec as Vec;',
                  "use std::fs::Permissions;")
-    if hashmap:
+    if hashmap and "parallel" in keys:
         par = os.path.join(dst, "src/rapidquilt/apply/parallel.rs")
         _rewrite(par,
                  r"^use std::collections::\{HashMap, HashSet\};$",
